@@ -579,6 +579,7 @@ func (fr *Frame) builtinAppend(args []*Val, argVals []ssa.Value, rt types.Type) 
 	fits := vc.define("app.fits", SBool, sx("<=", newLen, sx("scap", s.T)))
 	fresh := vc.define("app.ref", SInt, sx("+", fr.alloc(), "1"))
 	vc.setHeap(fr.st, "$alloc", SInt, fresh)
+	fr.onAllocArray(fresh)
 	newCap := vc.fresh("app.cap", SInt)
 	vc.assume(fr.reach, sx(">=", newCap, newLen))
 	res := vc.define("app.res", SSlice, ite(fits, sx("mkS", sx("sarr", s.T), sx("soff", s.T), newLen, sx("scap", s.T)), sx("mkS", fresh, "0", newLen, newCap)))
